@@ -9,7 +9,7 @@ ChmSel (shared with C18); lookups (__getitem__, __contains__).
 Not decided: the full finite-map equivalence over the construction grammar (a bounded-exhaustive behavioural claim; declined).
 """
 from ..program import AnalysisError
-from ..rules import is_call, is_mcall, mentions, mentions_any
+from ..rules import Arms, is_call, is_mcall, mentions, mentions_any
 from ..terms import C, Evaluator, G, P, is_t, mk_elem, mk_proj, show, subterms, mk_cmp, mk_phi
 from .C35 import chm_mask_rules
 
@@ -31,7 +31,7 @@ def run(chk, prog):
     # ---------------------------------------------------------------- Or.build (left bias)
     o = K["Or"]
     r = ev.eval_fn(o.methods["build"], o.module, o)
-    arms = {}
+    arms = Arms()
     for conds, ret in r.returns:
         pos = [t for t, p in conds if p]
         emp2 = any(is_mcall(t, "static_is_empty") and t[1][1] == C2 for t in pos)
@@ -144,7 +144,7 @@ def run(chk, prog):
     oksub = okf and leaves(sub) and any(x == ("call", SEL, (a,), ()) for x in leaves(sub)) and any(x == SEL for x in leaves(sub)) and len(leaves(sub)) == 2
     chk.require(bool(oksub), "CHM-RECURSE", "Static.filter", "every key filtered with selection(addr); a flag passes unchanged", derived=show(t)[:260], expected="Static.build({addr: self.get_submap(addr).filter(selection(addr) | flag) for every addr})", where=W(s, "filter"))
     r = ev.eval_fn(s.methods["get_inner_map"], s.module, s)
-    got = {}
+    got = Arms()
     if is_t(r.ret, "phi") and is_t(r.ret[1], "isinst") and r.ret[1][1] == ADDR:
         got = {"static": r.ret[2], "dynamic": r.ret[3]}
     vget = ("call", ("attr", ("attr", SELF, "mapping"), "get"), (ADDR, ("dict", ())), ())
@@ -258,7 +258,7 @@ def run(chk, prog):
     chk.require(okx, "CHM-RECURSE", "ChoiceMap.extend", "first component outermost; static -> Static level, dynamic -> Indexed level", derived=show(t)[:260], expected="for addr in reversed(addrs): Static.build({addr: acc}) | Indexed.build(acc, addr)", where=W(c, "extend"))
     b = K["_ChoiceMapBuilder"]
     r = ev.eval_fn(b.methods["set"], b.module, b)
-    got = {}
+    got = Arms()
     entry = None
     for conds, ret in r.returns:
         got["fresh" if any(is_t(t, "is") and p for t, p in conds) else "existing"] = ret
